@@ -59,6 +59,12 @@ example : readData (writeFile [1, 2, 3] 5 .little 1 [2, 0, 3] (fun _ => [7])) 5 
   roundtrip_bytes [1, 2, 3] 5 .little 1 1 [2, 0, 3] _ (by decide) (by decide) (by decide) (by decide)
     (by intro i hi; exact ⟨rfl, by decide⟩)
 
+-- non-empty: rank 3 with a length-1 axis, 2-byte big-endian elements behind a 3-byte header padded to 5
+example : readData (writeFile [1, 2, 3] 5 .big 2 [2, 1, 3] (fun i => [0x7f00 + 16 * i.getD 0 0 + i.getD 2 0])) 5 .big 2 1
+      [2, 1, 3]
+    = .ok ([2, 1, 3], [[0x7f00], [0x7f10], [0x7f01], [0x7f11], [0x7f02], [0x7f12]]) :=
+  roundtrip_bytes [1, 2, 3] 5 .big 2 1 [2, 1, 3] _ (by decide) (by decide) (by decide) (by decide) (by decide)
+
 /-- the codecs enter only through their contract: any `compress`/`decompress` pair with
     `decompress (compress b) = b` (gzip, bz2, zstd, identity) leaves the round trip intact — filename,
     file-map, stream and bytes routes differ only in the sink the same bytes go to. -/
@@ -213,6 +219,163 @@ example : ∀ i ∈ enumF [2, 1, 3], ElemOK 2 1 ((fun i => [i.getD 2 0]) i) := b
 example : (∃ f, mghWrite [] [] 1 (mghImageShape [5, 4]) (fun _ => [0]) = .ok f) :=
   (mgh_shape_accepted_iff [] [] 1 [5, 4] _).mpr (Or.inl (by decide))
 
+
+/-! ### the `dtype=` save argument -/
+
+/-- `dtype_override_plan`: in `to_file_map(dtype=X)` the byte order the data are written in is the
+    HEADER's, whatever dtype `X` is, in whatever byte order it is spelled (`np.dtype('>i2')`, `'<i2'`,
+    `np.int16`, …); the written header announces exactly the dtype the writer was given; without an
+    override that is the header's own dtype; and the image's header is left as it was before the call. -/
+theorem dtype_override_plan (h : Hdr) (ovr : Option (DType × OrderSpell)) :
+    (saveDType h ovr).1.2 = h.endian ∧
+    (saveDType h ovr).2.1.endian = h.endian ∧
+    (saveDType h ovr).1.1 = (saveDType h ovr).2.1.dtype ∧
+    (saveDType h ovr).1.1 = (match ovr with | some (t, _) => t | none => h.dtype) ∧
+    (saveDType h ovr).2.2 = h := by
+  cases ovr with
+  | none => simp [saveDType, Hdr.setDType, Hdr.getDType]
+  | some p => obtain ⟨t, sp⟩ := p; simp [saveDType, Hdr.setDType, Hdr.getDType]
+
+example : (saveDType ⟨.big, ⟨.float, 4, 1⟩⟩ (some (⟨.sint, 2, 1⟩, .little))).1 = (⟨.sint, 2, 1⟩, .big) := rfl
+
+/-- `dtype_override_roundtrip`: a save with ANY `dtype=` override (or none) on a header of EITHER byte
+    order, loaded back through the written header, returns the shape and the elements bit for bit. -/
+theorem dtype_override_roundtrip (hb : List Nat) (offset : Nat) (h : Hdr) (ovr : Option (DType × OrderSpell))
+    (shape : List Nat) (A : List Nat → Elem) (hh : hb.length ≤ offset) (hrank : shape ≠ [])
+    (hcw : 0 < (saveDType h ovr).1.1.cw) (hk : 0 < (saveDType h ovr).1.1.k)
+    (hA : ∀ i ∈ enumF shape, ElemOK (saveDType h ovr).1.1.cw (saveDType h ovr).1.1.k (A i)) :
+    readFileDT (writeFileDT hb offset h ovr shape A) offset h ovr shape = .ok (shape, (enumF shape).map A) := by
+  obtain ⟨h1, h2, h3, _, _⟩ := dtype_override_plan h ovr
+  unfold readFileDT writeFileDT
+  simp only []
+  rw [← h3, h2, h1]
+  exact roundtrip_bytes hb offset h.endian _ _ shape A hh hrank hcw hk hA
+
+example : readFileDT (writeFileDT [9] 4 ⟨.big, ⟨.float, 4, 1⟩⟩ (some (⟨.sint, 2, 1⟩, .native)) [2, 1]
+      (fun i => [i.getD 0 0 + 1])) 4 ⟨.big, ⟨.float, 4, 1⟩⟩ (some (⟨.sint, 2, 1⟩, .native)) [2, 1]
+    = .ok ([2, 1], [[1], [2]]) :=
+  dtype_override_roundtrip [9] 4 _ _ [2, 1] _ (by decide) (by decide) (by decide) (by decide) (by decide)
+
+/-- the variant `out_dtype = np.dtype(dtype)` (the override's own, native, byte order reaches the writer)
+    on a big-endian header of a little-endian machine: int16 1, 2 are read back as 256, 512 — while the
+    modelled code returns 1, 2 -/
+theorem dtype_override_native_order_counterexample :
+    let h : Hdr := ⟨.big, ⟨.float, 4, 1⟩⟩
+    let ovr := some ((⟨.sint, 2, 1⟩ : DType), OrderSpell.native)
+    let p := saveDTypeNativeMutant .little h ovr
+    readData (writeFile [] 0 p.1.2 p.1.1.cw [2] (fun i => [i.getD 0 0 + 1])) 0
+        p.2.1.endian p.2.1.dtype.cw p.2.1.dtype.k [2] = .ok ([2], [[256], [512]]) ∧
+    readFileDT (writeFileDT [] 0 h ovr [2] (fun i => [i.getD 0 0 + 1])) 0 h ovr [2] = .ok ([2], [[1], [2]]) := by
+  intro h ovr p
+  constructor <;> rfl
+
+/-! ### a loaded image saved over its own file -/
+
+/-- `resave_in_place`: `img = load(f); img.to_filename(f)` — because the voxel data are materialised
+    before the target is opened for writing (a decision that never consults file NAMES, so every
+    spelling of the path behaves alike), the file written is byte for byte the file that was loaded, and
+    it reads back to the elements originally saved. -/
+theorem resave_in_place (hb : List Nat) (offset : Nat) (e : Endian) (cw k : Nat) (shape : List Nat)
+    (A : List Nat → Elem) (hh : hb.length ≤ offset) (hrank : shape ≠ []) (hcw : 0 < cw) (hk : 0 < k)
+    (hA : ∀ i ∈ enumF shape, ElemOK cw k (A i)) :
+    resave hb offset e cw k shape A true = .ok (writeFile hb offset e cw shape A) ∧
+    ∀ f, resave hb offset e cw k shape A true = .ok f →
+      readData f offset e cw k shape = .ok (shape, (enumF shape).map A) := by
+  have hrt := roundtrip_bytes hb offset e cw k shape A hh hrank hcw hk hA
+  have h1 : resave hb offset e cw k shape A true = .ok (writeFile hb offset e cw shape A) := by
+    unfold resave
+    simp only [if_true, hrt]
+    unfold writeFile
+    rw [writeData_loaded]
+  refine ⟨h1, ?_⟩
+  intro f hf
+  rw [h1] at hf
+  cases hf
+  exact hrt
+
+example : resave [7] 2 .little 2 1 [2, 2] (fun i => [i.getD 0 0 + 2 * i.getD 1 0]) true
+    = .ok [7, 0, 0, 0, 1, 0, 2, 0, 3, 0] :=
+  (resave_in_place [7] 2 .little 2 1 [2, 2] (fun i => [i.getD 0 0 + 2 * i.getD 1 0]) (by decide)
+    (by decide) (by decide) (by decide) (by decide)).1.trans rfl
+
+/-- were the data taken from the file only AFTER `open(name, 'wb')` truncated it (a memory map that is
+    not copied first), nothing of a non-empty image is left to write: the model refuses; the real
+    process writes zeros/garbage or dies with SIGBUS -/
+theorem resave_lazy_counterexample (hb : List Nat) (offset : Nat) (e : Endian) (cw k : Nat) (shape : List Nat)
+    (A : List Nat → Elem) (hrank : shape ≠ []) (hn : shape.prod * (cw * k) ≠ 0) :
+    resave hb offset e cw k shape A false = .error .short := by
+  unfold resave
+  simp only [Bool.false_eq_true, if_false]
+  rw [readData_short [] offset e cw k shape hrank hn (by simp; omega)]
+
+example : resave [] 0 .big 1 1 [3] (fun _ => [5]) false = .error .short :=
+  resave_lazy_counterexample [] 0 .big 1 1 [3] _ (by decide) (by decide)
+
+/-- the same for MGH (header ‖ data ‖ footer): re-saving a loaded `.mgh` over itself rewrites the same file -/
+theorem mgh_resave_in_place (hdr ftr : List Nat) (cw k : Nat) (shape : List Nat) (A : List Nat → Elem)
+    (file : List Nat) (hhdr : hdr.length ≤ mghDataOffset) (hcw : 0 < cw) (hk : 0 < k)
+    (hA : ∀ i ∈ enumF shape, ElemOK cw k (A i))
+    (hw : mghWrite hdr ftr cw shape A = .ok file) :
+    mghResave hdr ftr cw k shape A true = .ok file := by
+  have hrd := (mgh_layout hdr ftr cw k shape A file hhdr hcw hk hA hw).1
+  have hcongr : mghWrite hdr ftr cw shape (loadedAt shape ((enumF shape).map A)) = mghWrite hdr ftr cw shape A := by
+    unfold mghWrite
+    rw [writeData_loaded]
+  unfold mghResave
+  simp only [hw, if_true, hrd, hcongr]
+
+example : ∃ f, mghWrite [1] [2] 1 [2, 1, 2] (fun i => [i.getD 0 0]) = .ok f ∧
+    mghResave [1] [2] 1 1 [2, 1, 2] (fun i => [i.getD 0 0]) true = .ok f :=
+  ⟨_, rfl, mgh_resave_in_place [1] [2] 1 1 [2, 1, 2] _ _ (by decide) (by decide) (by decide) (by decide) rfl⟩
+
+/-! ### float / complex on-disk types, and no cast at all -/
+
+/-- `float_out_never_scaled`: for a float or complex on-disk type the writers never ask for scaling
+    (complex input needs a complex output; structured RGB dtypes are excluded) — whatever the values,
+    NaN and ±inf included: the direct `astype` path is taken -/
+theorem float_out_never_scaled (a o : DType) (size : Nat) (r : Range)
+    (ha : a.kind ≠ .void) (ho : o.kind = .float ∨ o.kind = .complex)
+    (hc : a.kind = .complex → o.kind = .complex) :
+    scalingNeededBase a o size r = .ok false ∧ scalingNeededSlope a o size r = .ok false := by
+  have hb : scalingNeededBase a o size r = .ok false := by
+    unfold scalingNeededBase
+    have hov : o.kind ≠ .void := by rcases ho with h | h <;> rw [h] <;> decide
+    rw [if_neg (by intro h; rcases h with h | h <;> contradiction)]
+    by_cases hcc : canCast a o = true
+    · rw [if_pos hcc]
+    · rw [if_neg hcc]
+      by_cases hoc : o.kind = .complex
+      · rw [if_pos hoc]
+      · rw [if_neg hoc]
+        have hof : o.kind = .float := by rcases ho with h | h; exact h; contradiction
+        have hac : a.kind ≠ .complex := fun h => hoc (hc h)
+        rw [if_neg hac, if_pos hof]
+  exact ⟨hb, by unfold scalingNeededSlope; rw [hb]⟩
+
+example : scalingNeededBase ⟨.sint, 8, 1⟩ ⟨.float, 4, 1⟩ 3 (.ints (-9223372036854775808) 9223372036854775807)
+    = .ok false :=
+  (float_out_never_scaled _ _ _ _ (by decide) (Or.inl rfl) (by decide)).1
+
+/-- `same_dtype_exact`: with the on-disk dtype equal to the input dtype (any kind: integer, float,
+    complex, RGB/RGBA) no scaling is asked for, and every element — as a tuple of raw bit patterns, so NaN
+    payloads, ±inf, −0.0 are ordinary values — survives encode/decode in either byte order -/
+theorem same_dtype_exact (t : DType) (size : Nat) (r : Range) (e : Endian) (x : Elem)
+    (hx : ElemOK t.cw t.k x) :
+    scalingNeededBase t t size r = .ok false ∧ scalingNeededSlope t t size r = .ok false ∧
+    decElem e t.cw t.k (encElem e t.cw x) = x := by
+  have hb : scalingNeededBase t t size r = .ok false := by
+    unfold scalingNeededBase
+    by_cases hv : t.kind = .void
+    · simp [hv]
+    · have hcc : canCast t t = true := by
+        unfold canCast
+        cases hk : t.kind <;> simp_all
+      simp [hv, hcc]
+  exact ⟨hb, by unfold scalingNeededSlope; rw [hb], decElem_encElem e t.cw t.k x hx⟩
+
+example : ElemOK (⟨.complex, 4, 2⟩ : DType).cw (⟨.complex, 4, 2⟩ : DType).k [0x7fc00001, 0xff800000] :=
+  ⟨rfl, by decide⟩
+
 /-! ### codec choice by file name (over the regenerated tables) -/
 
 /-- `ImageOpener.compress_ext_map` as regenerated from the source -/
@@ -259,7 +422,11 @@ example : ("MGHImage", ".mgz", "", "gz") ∈ Gen.dataFileNames := by decide
 example : ("Nifti1Pair", ".img", ".bz2", "bz2") ∈ Gen.dataFileNames := by decide
 
 /-- `codec_same_for_read_and_write`: the file object opened for writing (`'wb'`) and the one opened for
-    reading (`'rb'`) use the same codec — the canonical one — for every name of the table family. -/
+    reading (`'rb'`) use the same codec — the canonical one — for every name of the table family.
+    GLUE: `Opener.__init__` takes the opener from `_get_opener_argnames(fileish)`, which never sees the
+    mode (`openerInit` passes it on untouched), so this is `codec_by_suffix` stated twice; the content of
+    the clause is `codec_by_suffix` plus the `opener` correspondence stream (the file objects really
+    opened for 'wb' and 'rb'). -/
 theorem codec_same_for_read_and_write (root : List Char) (hroot : ∃ c ∈ baseName root, c ≠ '.') :
     ∀ en ∈ Gen.dataFileNames,
       let name := root ++ (en.2.1.toList ++ en.2.2.1.toList)
